@@ -404,6 +404,16 @@ def convertMap (isUser : String â†’ Bool) : List (Option String Ã— ExtPragma) â†
         | .ok l => .ok ((n, s) :: l)
         | .error e => .error e
 
+
+/-- the check `convertMap` performs on one named entry -/
+def entryCheck (isUser : String â†’ Bool) (n : String) (p : ExtPragma) : Except MapErr Signature :=
+  if !isUser n then .error .name else sigOfPragma isUser p
+
+/-- every error applicable to a named entry: a bad extern name and/or whatever is wrong with its signature
+(a pragma wrong in both ways may be reported either way) -/
+def entryErrs (isUser : String â†’ Bool) (n : String) (p : ExtPragma) : List MapErr :=
+  (if !isUser n then [.name] else []) ++ (match sigOfPragma isUser p with | .error e => [e] | .ok _ => [])
+
 /-- `Program::try_extern_signature_map_from_pragma_map` after adding the pragmas in order -/
 def externMap (isUser : String â†’ Bool) (ps : List ExtPragma) :
     Except (Option String Ã— MapErr) (List (String Ã— Signature)) :=
